@@ -99,7 +99,7 @@ Proof. unfold path_of_parts. change [CRoot RT] with (flat RT []). apply path_ini
 Lemma part_idx_p_spec k : zidx (part_idx_p (Z.of_nat (1 + 2 * k))) = k.
 Proof. unfold zidx, part_idx_p. lia. Qed.
 
-Lemma p_catches_everything cls : exc_caught (match str_assoc "P" access_catches with Some l => l | None => [] end) cls = true.
+Lemma p_catches_everything cls : exc_caught (catches_of "P") cls = true.
 Proof. vm_compute. reflexivity. Qed.
 
 Lemma step_P rec target cells k v cur :
